@@ -75,6 +75,25 @@ def is_node_visible(
     return True
 
 
+def get_visible_representative(
+    node_id: str,
+    flat_graph: nx.DiGraph,
+    expansion_state: dict[str, bool],
+) -> str:
+    """Return node_id if visible, else its nearest visible enclosing container.
+
+    A node nested inside a collapsed container is drawn as that container, so
+    edges that resolve to a hidden internal node attach to the container instead.
+    Falls back to node_id when no ancestor is visible.
+    """
+    current: str | None = node_id
+    while current is not None:
+        if is_node_visible(current, flat_graph, expansion_state):
+            return current
+        current = flat_graph.nodes[current].get("parent")
+    return node_id
+
+
 def get_nesting_depth(node_id: str, flat_graph: nx.DiGraph) -> int:
     """Get the nesting depth of a node (0 = root level)."""
     depth = 0
